@@ -19,20 +19,22 @@ CFG = """CONSTANTS
   EMIT = {emit}
   RICH = {rich}
   MAXBYTES = {maxbytes}
+  LIGHT = {light}
+  HDEPTH = {hdepth}
   WITHSIZE = {withsize}
-  LOOPBOUND = 300
+  LOOPBOUND = 64
 SPECIFICATION {spec}
 CHECK_DEADLOCK FALSE
 {props}
 """
 
 
-def cfg_text(mode, *, nfuel=0, ndfuel=0, emit=False, rich=True, maxbytes=0, withsize=True, invariants=(), properties=(), fair=False):
+def cfg_text(mode, *, nfuel=0, ndfuel=0, emit=False, rich=True, maxbytes=0, withsize=True, invariants=(), properties=(), fair=False, light=False, hdepth=2):
     props = "".join(f"INVARIANT {i}\n" for i in invariants) + "".join(f"PROPERTY {p}\n" for p in properties)
     if emit:
         props += "INVARIANT Emit\n"
     return CFG.format(mode=mode, nfuel=nfuel, ndfuel=ndfuel, emit="TRUE" if emit else "FALSE", rich="TRUE" if rich else "FALSE",
-                      maxbytes=maxbytes, withsize="TRUE" if withsize else "FALSE", spec="FairSpec" if fair else "Spec", props=props)
+                      maxbytes=maxbytes, light="TRUE" if light else "FALSE", hdepth=hdepth, withsize="TRUE" if withsize else "FALSE", spec="FairSpec" if fair else "Spec", props=props)
 
 
 def corpus_types(progs, types=None):
